@@ -24,6 +24,10 @@ class DeFail(Exception):
     def __init__(self,msg): self.msg=msg
 def derror(msg): return Opaque('serde_json::Error',msg)
 
+def bufchan(chan):
+    """the channel of a value that sits in serde's buffered `Content` (untagged / flattened / internally tagged members): string
+    borrowing is as on the original channel, but sequence and map lengths are known exactly"""
+    return chan if '+buf' in chan else chan+'+buf'
 def mkde(v,chan): return Opaque('ValueDe',{'v':v,'chan':chan})
 def de_parts(e,d):
     """(value, channel) of any deserializer-like object"""
@@ -103,7 +107,7 @@ def de_type(e,run,ty,v,chan):
     if ty.endswith('IgnoredAny'): return Agg('IgnoredAny',[])
     if re.match(r'^(std::marker::)?PhantomData<',ty): return Agg('PhantomData',[])
     if re.match(r'^(std::boxed::)?Box<',ty): return Ref(Cell(de_type(e,run,generic_args(ty)[0],v,chan)))
-    if 'Content<' in ty and ty.split('<')[0].endswith('Content'): return Opaque('Content',{'v':v,'chan':chan})
+    if 'Content<' in ty and ty.split('<')[0].endswith('Content'): return Opaque('Content',{'v':v,'chan':bufchan(chan)})
     # in-crate type: run its Deserialize impl from MIR
     body=find_de_impl(e,run,ty)
     if body is None: raise Unsupported('Deserialize for '+ty[:120])
@@ -156,6 +160,7 @@ def turbofish(f,meth):
 # ---- Deserializer methods
 def visit_string_for(e,run,vis,v,chan):
     s=deref(v.f[0])
+    buffered='+buf' in chan; chan=chan.replace('+buf','')
     if chan=='borrowed' or chan=='key:borrowed':
         b=find_visitor_method(e,run,vis,'visit_borrowed_str')
         if b is not None: return e.call_fn(run,b,[vis,Ref(Cell(Str(s.b,True,s.taint,s.ghost)))])
@@ -221,7 +226,12 @@ def m_seq_next(e,run,a,f):
     x=p['items'][p['i']]; p['i']+=1
     return some(de_type(e,run,t,x,p['chan']))
 def m_seq_size_hint(e,run,a,f):
-    p=deref(a[0]).p; return some(Int(64,False,len(p['items'])-p['i']))
+    # serde_json: the text deserializers (str / slice / reader) do not know how many elements follow (None); a parsed tree and
+    # serde's buffered Content (untagged / flattened members) report the exact remaining count
+    p=deref(a[0]).p
+    ch=p.get('chan') or ''
+    if '+buf' in ch or ch.replace('key:','') == 'tree': return some(Int(64,False,len(p['items'])-p['i']))
+    return none()
 def m_map_next_key(e,run,a,f):
     p=deref(a[0]).p
     if p['i']>=len(p['ents']): return none()
@@ -235,7 +245,7 @@ def m_map_next_value(e,run,a,f):
 def m_map_next_value_seed(e,run,a,f):
     p=deref(a[0]).p
     t=turbofish(f,'next_value_seed')[0]
-    if 'ContentVisitor' in t: return Opaque('Content',{'v':p['pending'],'chan':p['chan']})
+    if 'ContentVisitor' in t: return Opaque('Content',{'v':p['pending'],'chan':bufchan(p['chan'])})
     raise Unsupported('next_value_seed '+t[:80])
 def m_map_next_entry(e,run,a,f):
     p=deref(a[0]).p
@@ -284,7 +294,7 @@ def m_from_utf8_lossy(e,run,a,f): return Agg('Cow',[Ref(Cell(Str(byte_list(a[0])
 def m_content_visitor_new(e,run,a,f): return Opaque('ContentVisitor')
 def m_content_ref_de_new(e,run,a,f): return Agg('ContentRefDeserializer',[a[0]])
 def m_content_deserialize(e,run,a,f):
-    v,chan=de_parts(e,a[-1]); return ok(Opaque('Content',{'v':v,'chan':chan}))
+    v,chan=de_parts(e,a[-1]); return ok(Opaque('Content',{'v':v,'chan':bufchan(chan)}))
 
 # ---- serde_json's TEXT layer: a JSON text in a byte buffer (bytes may be symbolic) -> Value tree
 def text_to_doc(run,bs):
